@@ -7,6 +7,10 @@
 // the same database. Decided certificates carry real aggregated BLS signatures (signature verification is on),
 // local decisions are reached by feeding the seven deciding messages through Validator.ProcessMessage.
 //
+// Storage faults: the database handed to ibft/storage is wrapped (crashDB). Per step it can (a) kill the process right
+// before its (k+1)-th Set (crash points between the writes of one save) and (b) make chosen Sets FAIL: the write
+// attempts named by the step's fault plan (1 = the first Set the call makes) return an error and write nothing.
+//
 //	-mode replay : replays NDJSON behaviours (TLC state-graph cover, simulations, attack / finding traces), compares the
 //	               real projection with the spec state after every step (divergence) and evaluates the C15 monitors
 //	               on real outputs only (violation).
@@ -16,6 +20,7 @@ package main
 import (
 	"context"
 	"encoding/json"
+	"errors"
 	"flag"
 	"fmt"
 	"math/rand"
@@ -167,28 +172,50 @@ func certOf(si *qbftstorage.StoredInstance) (h, r, n int) {
 	return
 }
 
-func (s *spyStore) checkHighest(si *qbftstorage.StoredInstance, call string) {
+// The checks compare the record about to be written with what the real store holds; they return the verdict as a
+// closure that the caller runs only once the write has taken effect (a write that failed replaced nothing).
+func (s *spyStore) checkHighest(si *qbftstorage.StoredInstance, call string) func() {
 	old, err := s.QBFTStore.GetHighestInstance(msgID[:])
 	if err != nil || old == nil {
-		return
+		return func() {}
 	}
 	oh, or, on := certOf(old)
 	nh, nr, nn := certOf(si)
 	w := s.w
-	switch {
-	case nh < oh:
-		w.res.Violate("highest-replaced-by-lower-height", fmt.Sprintf("%s: stored highest instance (height %d, round %d, %d signers) replaced by one for the lower height %d", call, oh, or, on, nh), w.beh, w.step)
-	case nh == oh && nn < on:
-		w.res.Violate("highest-replaced-by-fewer-signers", fmt.Sprintf("%s: stored highest instance of height %d (certificate of round %d, %d signers) replaced by a certificate of round %d with %d signers", call, oh, or, on, nr, nn), w.beh, w.step)
-	case nh == oh && nn == on && nr != or:
-		w.res.Counters["obs_highest_replaced_by_equal_signers"]++
+	return func() {
+		switch {
+		case nh < oh:
+			w.res.Violate("highest-replaced-by-lower-height", fmt.Sprintf("%s: stored highest instance (height %d, round %d, %d signers) replaced by one for the lower height %d", call, oh, or, on, nh), w.beh, w.step)
+		case nh == oh && nn < on:
+			w.res.Violate("highest-replaced-by-fewer-signers", fmt.Sprintf("%s: stored highest instance of height %d (certificate of round %d, %d signers) replaced by a certificate of round %d with %d signers", call, oh, or, on, nr, nn), w.beh, w.step)
+		case nh == oh && nn == on && nr != or:
+			w.res.Counters["obs_highest_replaced_by_equal_signers"]++
+		}
 	}
 }
 
-func (s *spyStore) checkHistorical(si *qbftstorage.StoredInstance, call string) {
+// wrote reports whether the record si is what the store holds now (highest record or historical record of its height).
+func (s *spyStore) wrote(si *qbftstorage.StoredInstance, highest bool) bool {
+	var now *qbftstorage.StoredInstance
+	var err error
+	h, r, n := certOf(si)
+	if highest {
+		now, err = s.QBFTStore.GetHighestInstance(msgID[:])
+	} else {
+		now, err = s.QBFTStore.GetInstance(msgID[:], specqbft.Height(h))
+	}
+	if err != nil || now == nil {
+		return false
+	}
+	h2, r2, n2 := certOf(now)
+	return h == h2 && r == r2 && n == n2
+}
+
+func (s *spyStore) checkHistorical(si *qbftstorage.StoredInstance, call string) func() {
 	nh, nr, nn := certOf(si)
 	old, err := s.QBFTStore.GetInstance(msgID[:], specqbft.Height(nh))
 	w := s.w
+	verdict := func() {}
 	if err == nil && old != nil {
 		_, or, on := certOf(old)
 		if nn < on {
@@ -200,35 +227,67 @@ func (s *spyStore) checkHistorical(si *qbftstorage.StoredInstance, call string) 
 			if li, ok := w.late[nh]; ok && li.inc < w.restarts && w.loadMax < nh && nh < li.at && w.startedInc[nh] && !w.histInc[nh] {
 				sig = "history-overwritten-by-rerun-after-restart"
 			}
-			w.res.Violate(sig, fmt.Sprintf("%s: historical instance of height %d (certificate of round %d, %d signers) replaced by a certificate of round %d with %d signers", call, nh, or, on, nr, nn), w.beh, w.step)
+			desc := fmt.Sprintf("%s: historical instance of height %d (certificate of round %d, %d signers) replaced by a certificate of round %d with %d signers", call, nh, or, on, nr, nn)
+			verdict = func() { w.res.Violate(sig, desc, w.beh, w.step) }
 		}
 	}
-	w.histInc[nh] = true
+	return func() {
+		verdict()
+		w.histInc[nh] = true
+	}
 }
 
 func (s *spyStore) SaveInstance(si *qbftstorage.StoredInstance) error {
-	if !s.quiet {
-		s.w.res.Counters["store_save_historical"]++
-		s.checkHistorical(si, "SaveInstance")
+	if s.quiet {
+		return s.QBFTStore.SaveInstance(si)
 	}
-	return s.QBFTStore.SaveInstance(si)
+	s.w.res.Counters["store_save_historical"]++
+	hist := s.checkHistorical(si, "SaveInstance")
+	err := s.QBFTStore.SaveInstance(si)
+	if err == nil || s.wrote(si, false) {
+		hist()
+	}
+	s.saveErr(err)
+	return err
 }
 
 func (s *spyStore) SaveHighestInstance(si *qbftstorage.StoredInstance) error {
-	if !s.quiet {
-		s.w.res.Counters["store_save_highest"]++
-		s.checkHighest(si, "SaveHighestInstance")
+	if s.quiet {
+		return s.QBFTStore.SaveHighestInstance(si)
 	}
-	return s.QBFTStore.SaveHighestInstance(si)
+	s.w.res.Counters["store_save_highest"]++
+	hi := s.checkHighest(si, "SaveHighestInstance")
+	err := s.QBFTStore.SaveHighestInstance(si)
+	if err == nil || s.wrote(si, true) {
+		hi()
+	}
+	s.saveErr(err)
+	return err
 }
 
 func (s *spyStore) SaveHighestAndHistoricalInstance(si *qbftstorage.StoredInstance) error {
-	if !s.quiet {
-		s.w.res.Counters["store_save_highest_and_historical"]++
-		s.checkHighest(si, "SaveHighestAndHistoricalInstance")
-		s.checkHistorical(si, "SaveHighestAndHistoricalInstance")
+	if s.quiet {
+		return s.QBFTStore.SaveHighestAndHistoricalInstance(si)
 	}
-	return s.QBFTStore.SaveHighestAndHistoricalInstance(si)
+	s.w.res.Counters["store_save_highest_and_historical"]++
+	hi := s.checkHighest(si, "SaveHighestAndHistoricalInstance")
+	hist := s.checkHistorical(si, "SaveHighestAndHistoricalInstance")
+	err := s.QBFTStore.SaveHighestAndHistoricalInstance(si)
+	if err == nil || s.wrote(si, true) {
+		hi()
+	}
+	if err == nil || s.wrote(si, false) {
+		hist()
+	}
+	s.saveErr(err)
+	return err
+}
+
+// saveErr counts the saves that reported an error to the controller / runner (only injected failures do).
+func (s *spyStore) saveErr(err error) {
+	if err != nil {
+		s.w.res.Counters["store_saves_failed"]++
+	}
 }
 
 type proc struct {
@@ -261,6 +320,9 @@ type world struct {
 // crashDB is the database handed to ibft/storage: the real in-memory badger, except that when armed the process
 // "dies" (panic with crashSignal, recovered by the harness) right before the (left+1)-th Set. Everything written
 // before that point stays durable; the harness then throws the validator away and restarts on the surviving data.
+//
+// Failing writes: plan(F) numbers the Sets from 1; a Set whose number is in F returns errInjected and writes nothing
+// (a transient disk / badger error). fired lists the numbers that were hit.
 type crashSignal struct{}
 
 type crashDB struct {
@@ -268,12 +330,36 @@ type crashDB struct {
 	armed bool
 	left  int
 	sets  int // Sets that reached the real database since the last arm()
+
+	failAt  map[int]bool
+	attempt int
+	fired   []int
 }
+
+var errInjected = errors.New("verif: injected storage write failure")
 
 func (d *crashDB) arm(k int) { d.armed, d.left, d.sets = true, k, 0 }
 func (d *crashDB) disarm()   { d.armed = false }
 
+func (d *crashDB) plan(f []int) {
+	d.failAt, d.attempt, d.fired = map[int]bool{}, 0, []int{}
+	for _, a := range f {
+		d.failAt[a] = true
+	}
+}
+
+func (d *crashDB) unplan() (fired []int, attempts int) {
+	fired, attempts = d.fired, d.attempt
+	d.failAt, d.attempt, d.fired = nil, 0, nil
+	return
+}
+
 func (d *crashDB) Set(prefix []byte, key []byte, value []byte) error {
+	d.attempt++
+	if d.failAt[d.attempt] {
+		d.fired = append(d.fired, d.attempt)
+		return errInjected
+	}
 	if d.armed {
 		if d.left == 0 {
 			d.armed = false
@@ -619,11 +705,32 @@ func (w *world) decided(h, r, n int) error {
 	// Counted only when it was timely (not below the controller height), the node did not already hold the instance
 	// as decided in memory (then it learned it earlier) and the height was never learned through a late decided
 	// message (recorded finding: such a height is not covered by the stored highest).
-	if h >= hb && !memDecided && !lateBefore && h > w.certTop {
+	// ... and no database write of this call failed: a failed write followed by a restart legitimately forgets.
+	if h >= hb && !memDecided && !lateBefore && len(w.db.fired) == 0 && h > w.certTop {
 		w.certTop = h
 		w.certDesc = fmt.Sprintf("decided certificate of height %d (round %d, %d signers) processed completely at step %d while the controller height was %d", h, r, n, w.step, hb)
 	}
 	return err
+}
+
+// faulty runs one call under a plan of failing database writes (write attempts of the call, 1 = its first Set).
+// It returns the attempts that were hit; the call itself goes on - what the code does with the error is its business.
+func (w *world) faulty(plan []int, call func()) (fired []int) {
+	if len(plan) == 0 {
+		call()
+		return []int{}
+	}
+	w.db.plan(plan)
+	call()
+	fired, _ = w.db.unplan()
+	w.res.Counters["write_faults_injected"] += len(fired)
+	return fired
+}
+
+func (w *world) localMsgs(h int) {
+	for _, m := range msgsFor(h).local {
+		_ = w.deliver(m, "consensus message")
+	}
 }
 
 // crashing runs one call with the process dying right before its (k+1)-th database write, then restarts on the
@@ -713,14 +820,18 @@ func replay(b vh.Behaviour, res *vh.Result) {
 				res.Diverge(b.ID, i, "CtlStart.ok", vh.Bool(a, "ok"), fmt.Sprint(err))
 			}
 		case "LocalMsgs":
-			for _, m := range msgsFor(vh.Int(a, "h")).local {
-				_ = w.deliver(m, "consensus message")
+			plan := vh.Ints(a, "fail")
+			if fired := w.faulty(plan, func() { w.localMsgs(vh.Int(a, "h")) }); len(fired) != len(plan) {
+				res.Diverge(b.ID, i, "LocalMsgs.fail", plan, fired) // a write the spec expects was not attempted
 			}
 			nontrivial = true
 		case "Commit4":
 			_ = w.deliver(msgsFor(vh.Int(a, "h")).c4, "commit message")
 		case "Decided":
-			_ = w.decided(vh.Int(a, "h"), vh.Int(a, "r"), vh.Int(a, "n"))
+			plan := vh.Ints(a, "fail")
+			if fired := w.faulty(plan, func() { _ = w.decided(vh.Int(a, "h"), vh.Int(a, "r"), vh.Int(a, "n")) }); len(fired) != len(plan) {
+				res.Diverge(b.ID, i, "Decided.fail", plan, fired)
+			}
 			nontrivial = true
 		case "DecidedCrash":
 			h, r, n, k := vh.Int(a, "h"), vh.Int(a, "r"), vh.Int(a, "n"), vh.Int(a, "k")
@@ -731,11 +842,7 @@ func replay(b vh.Behaviour, res *vh.Result) {
 			nontrivial = true
 		case "LocalMsgsCrash":
 			h, k := vh.Int(a, "h"), vh.Int(a, "k")
-			if !w.crashing(k, func() {
-				for _, m := range msgsFor(h).local {
-					_ = w.deliver(m, "consensus message")
-				}
-			}) {
+			if !w.crashing(k, func() { w.localMsgs(h) }) {
 				res.Diverge(b.ID, i, "LocalMsgsCrash.fired", true, false)
 				w.restart()
 			}
@@ -789,6 +896,20 @@ func record(path string, seed int64, runs int, full bool, res *vh.Result) {
 		tw.Emit(map[string]any{"event": "Reset", "full": full})
 		nsteps := 6 + rng.Intn(12)
 		restartsLeft := 3
+		faultsLeft := 3 // MaxWriteFaults of ControllerTrace_*.cfg
+		// a random plan of failing write attempts for one call (mostly none); only the attempts that were hit are logged
+		faultPlan := func() []int {
+			if faultsLeft == 0 || rng.Intn(4) != 0 {
+				return nil
+			}
+			plan := []int{1 + rng.Intn(4)}
+			if faultsLeft > 1 && rng.Intn(3) == 0 {
+				if b := 1 + rng.Intn(4); b != plan[0] {
+					plan = append(plan, b)
+				}
+			}
+			return plan
+		}
 		for s := 0; s < nsteps; s++ {
 			w.step = s
 			ev := map[string]any{}
@@ -806,33 +927,33 @@ func record(path string, seed int64, runs int, full bool, res *vh.Result) {
 				err := w.ctlStart(slot)
 				ev = map[string]any{"event": "CtlStart", "slot": slot, "ok": err == nil}
 			case x < 45 && inst != nil && inst.StartValue != nil && inst.CanProcessMessages() && inst.State.ProposalAcceptedForCurrentRound == nil:
-				ev = map[string]any{"event": "LocalMsgs", "h": cur}
-				feed := func() {
-					for _, m := range msgsFor(cur).local {
-						_ = w.deliver(m, "consensus message")
-					}
-				}
+				ev = map[string]any{"event": "LocalMsgs", "h": cur, "fail": []int{}}
+				feed := func() { w.localMsgs(cur) }
 				if k := rng.Intn(2); restartsLeft > 0 && rng.Intn(4) == 0 {
 					if w.crashing(k, feed) { // the process died before its (k+1)-th database write
 						restartsLeft--
 						ev = map[string]any{"event": "LocalMsgsCrash", "h": cur, "k": k}
 					}
 				} else {
-					feed()
+					fired := w.faulty(faultPlan(), feed)
+					faultsLeft -= len(fired)
+					ev["fail"] = fired
 				}
 			case x < 52 && inst != nil && inst.State.ProposalAcceptedForCurrentRound != nil && inst.State.Round == 1 && inst.CanProcessMessages() && !hasSingle(inst, 4):
 				_ = w.deliver(msgsFor(cur).c4, "commit message")
 				ev = map[string]any{"event": "Commit4", "h": cur}
 			case x < 82:
 				h, r, n := rng.Intn(maxH+1), 1+rng.Intn(2), 3+rng.Intn(2)
-				ev = map[string]any{"event": "Decided", "h": h, "r": r, "n": n}
+				ev = map[string]any{"event": "Decided", "h": h, "r": r, "n": n, "fail": []int{}}
 				if k := rng.Intn(2); restartsLeft > 0 && rng.Intn(4) == 0 {
 					if w.crashing(k, func() { _ = w.decided(h, r, n) }) {
 						restartsLeft--
 						ev = map[string]any{"event": "DecidedCrash", "h": h, "r": r, "n": n, "k": k}
 					}
 				} else {
-					_ = w.decided(h, r, n)
+					fired := w.faulty(faultPlan(), func() { _ = w.decided(h, r, n) })
+					faultsLeft -= len(fired)
+					ev["fail"] = fired
 				}
 			case x < 90:
 				h, r := rng.Intn(maxH+1), 1+rng.Intn(2)
